@@ -356,6 +356,36 @@ func stress(id int, rng *rand.Rand) O {
 	return h.finish(id, "timer-stress", O{"plan": plan}, true)
 }
 
+// lockheld: a due timer publishes its change under the crew's mutex; the harness holds that mutex across the
+// due time (the mutex is the scheduler gate), issues requests for the id meanwhile, then lets go.  A request
+// that was accepted as a cancellation must not be followed by the firing, and vice versa.
+func lockheld(id int, rng *rand.Rand) O {
+	h := newHarness(false)
+	h.request("add", "t1", true)
+	time.Sleep(time.Duration(rng.Intn(10)) * time.Millisecond)
+	h.c.Lock()
+	h.rec.add(O{"ev": "hook", "point": "crew-lock-held", "u": 0})
+	time.Sleep(shortDelay + time.Duration(5+rng.Intn(15))*time.Millisecond)
+	plan := rng.Intn(4)
+	switch plan {
+	case 0:
+		h.request("rem", "t1", true)
+	case 1:
+		h.request("rem", "t1", true)
+		h.request("add", "t1", rng.Intn(2) == 0)
+	case 2:
+		h.request("add", "t1", true)
+		h.request("rem", "t1", true)
+	}
+	h.rec.add(O{"ev": "hook", "point": "crew-lock-released", "u": 0})
+	h.c.Unlock()
+	time.Sleep(5 * time.Millisecond)
+	if rng.Intn(2) == 0 {
+		h.request("rem", "t1", true)
+	}
+	return h.finish(id, "timer-lockheld", O{"plan": plan}, true)
+}
+
 // restart: the crew is stopped between creation and due time, its reported changes have been
 // folded into a store, and a new crew is booted from the store.
 func restart(id int, rng *rand.Rand) O {
@@ -432,7 +462,7 @@ func main() {
 				out.write(replay(id, s.Sched))
 			}
 		}
-	case "stress", "restart", "writeback":
+	case "stress", "restart", "writeback", "lockheld":
 		n, _ := strconv.Atoi(os.Args[2])
 		seed, _ := strconv.Atoi(os.Args[3])
 		rng := rand.New(rand.NewSource(int64(seed)))
@@ -444,6 +474,8 @@ func main() {
 				out.write(stress(id, rng))
 			case "restart":
 				out.write(restart(id, rng))
+			case "lockheld":
+				out.write(lockheld(id, rng))
 			default:
 				out.write(writeback(id, rng))
 			}
